@@ -48,3 +48,18 @@ def compute_accuracy(true_positives: Arr(Real, None), n_ref: Arr(Int, None), n_e
     ensures(0 <= precision, precision <= 1, 0 <= recall, recall <= 1, 0 <= acc, acc <= 1, label='range', props="C01")
     ensures(acc <= precision or E <= 0, acc <= recall or R <= 0, label='acc<=min(P,R)', props="C18")
     ensures(implies(T == R and T == E and T > 0, precision == 1 and recall == 1), label='perfect', props="C02")
+
+
+@lemma("C02")
+def lemma_multipitch_perfect(tp: Arr(Real, None), n_ref: Arr(Int, None)):
+    """every reference pitch matched and nothing else estimated: precision = recall = accuracy = 1 and all four errors are 0"""
+    n = length(n_ref)
+    requires(length(tp) == n, forall(0, n, lambda i: n_ref[i] >= 0 and tp[i] == n_ref[i]), sum_of(n_ref) > 0)
+    sum_eq(tp, n_ref)
+    sum_eq(array_of(n, lambda i: n_ref[i] + n_ref[i] - tp[i]), n_ref)
+    P, R, A = compute_accuracy(tp, n_ref, n_ref)
+    sum_zero(array_of(n, lambda i: min(n_ref[i], n_ref[i]) - tp[i]))
+    sum_zero(array_of(n, lambda i: max(n_ref[i] - n_ref[i], 0), dtype='int'))
+    sum_zero(array_of(n, lambda i: max(n_ref[i], n_ref[i]) - tp[i]))
+    es, em, ef, et = compute_err_score(tp, n_ref, n_ref)
+    ensures(P == 1, R == 1, A == 1, es == 0, em == 0, ef == 0, et == 0, label='perfect')
